@@ -787,8 +787,7 @@ def check_C10(A: Analysis, tier):
                     rf.inst(f"{ev.func.qual}:{ev.line} in-place rewrite keeps the order of the lines read")
                     from .rules_common import expand_locals
                     wx = expand_locals(ev.func.node, ev.node.args[0])
-                    bad = [c for c in ast.walk(wx) if (isinstance(c, ast.Call) and norm(c.func) in ("sorted", "set", "frozenset", "reversed", "dict.fromkeys",
-                                                                                                   "random.sample", "collections.Counter", "Counter"))
+                    bad = [c for c in ast.walk(wx) if (isinstance(c, ast.Call) and norm(c.func) in ("sorted", "set", "frozenset", "reversed", "random.sample"))
                            or isinstance(c, (ast.SetComp, ast.Set))]
                     wn = ev.node.args[0].id if isinstance(ev.node.args[0], ast.Name) else None
                     bad += [c for c in ast.walk(ev.func.node) if wn and isinstance(c, ast.Call) and isinstance(c.func, ast.Attribute)
